@@ -203,10 +203,9 @@ Definition q_round_exact (mode : rmode) (q : brat) : res brat :=
 
 (* ---------------- classifier of the known defect ---------------- *)
 
-Definition single_limb (b : buint) : bool :=
-  match b with Small _ => true | Large [_] => true | Large _ => false end.
+Definition is_small (b : buint) : bool := match b with Small _ => true | Large _ => false end.
 
-(* rounding through f64 is only claimed correct for integers below 2^53 held
-   in one limb; everything else is in the known class *)
+(* rounding through f64 is only claimed correct for integers below 2^53 held in
+   Small limbs (the everyday case); everything else is in the known class *)
 Definition known_C10_float (q : brat) : bool :=
-  negb ((dval q =? 1) && (nval q <? 2 ^ 53) && single_limb (rnum q) && single_limb (rden q)).
+  negb (is_small (rnum q) && is_small (rden q) && (dval q =? 1) && (nval q <? 2 ^ 53)).
